@@ -130,9 +130,12 @@ CLAIMED = {
              "Model of Derivate for polynomial curves (difference matrix, removal of full-multiplicity knots, Bezier path with "
              "clean()) tied by differential execution within 1e-9 (the library computes the quotients in float64).",
         design="7/C09",
-        technique="Coq proof (exactness of the oracle's quadrature) + correspondence and integral-identity oracle by vm_compute",
-        note="PART: the B-spline derivative formula on the span-local recursion (Proofs/DerivProofs.v) is in progress; until "
-             "then the property rests on the per-case oracle. Floats: the result of Derivate is float even for Fraction input "
+        technique="Coq proof (derivative formula by induction on the degree, summation by parts; exactness of the oracle's quadrature) + correspondence and integral-identity oracle by vm_compute",
+        note="Unbounded theorems (Props/C09.v): dNloc is the derivative of the span-local basis polynomial (Taylor form with "
+             "explicit remainder; epsilon-delta statement over Q), the derivative formula for every degree and index, and by "
+             "summation by parts the derivative of a curve is the degree p-1 curve whose coefficients are exactly the model's "
+             "difference_points (C09_model_curve_derivative). Not proved: the bookkeeping of removed full-multiplicity knots and "
+             "the rational quotient rule (oracle only). Floats: the result of Derivate is float even for Fraction input "
              "(not among the operations C16 requires to be exact), hence the 1e-9 comparison."),
     "C10": dict(
         text="Unbounded theorems (Props/C10.v), for EVERY n: the interpolatory weights the model computes (inverse of the "
